@@ -34,7 +34,7 @@ ApplyOne(o0, c, skipped) ==
   LET o == IF c.c \in {"advance", "init"} THEN o0 ELSE [o0 EXCEPT !.lastEnvAt = o0.now] IN
   CASE c.c = "send" -> [o EXCEPT !.pend[c.i + 1] = <<c.v>>]
     [] c.c = "close" -> [o EXCEPT !.closed[c.i + 1] = TRUE]
-    [] c.c = "recv" -> [o EXCEPT !.rp[c.o] = TRUE, !.recvAt[c.o] = Append(@, o.now)]
+    [] c.c \in {"recv", "recvall"} -> [o EXCEPT !.rp[c.o] = TRUE, !.recvAt[c.o] = Append(@, o.now)]
     [] c.c = "cancel" -> [o EXCEPT !.cancelled = TRUE, !.cancelAt = o.now, !.sentAtCancel = o.sent,
                                    !.gotAtCancel = [x \in Outs |-> Len(o.got[x])]]
     [] c.c = "release" -> [o EXCEPT !.pending = @ - 1]
@@ -48,6 +48,9 @@ ApplyEv(o, e) ==
   CASE e.e = "sent" -> [o EXCEPT !.sent[e.i + 1] = Append(@, e.v), !.sentAt[e.i + 1] = Append(@, e.at), !.pend[e.i + 1] = <<>>]
     [] e.e = "sendpanic" -> [o EXCEPT !.pend[e.i + 1] = <<>>, !.panic = @ \/ ~o.cancelled]
     [] e.e = "closepanic" -> [o EXCEPT !.panic = @ \/ ~o.cancelled]
+    [] e.e = "got" /\ e.ok /\ e.k = -2 ->       \* a keep-up consumer (recvall): it is back in its next receive at once
+         [o EXCEPT !.got[e.o] = Append(@, e.v), !.gotAt[e.o] = Append(@, e.at), !.recvAt[e.o] = Append(@, e.at)]
+    [] e.e = "recvdone" -> [o EXCEPT !.rp[e.o] = FALSE]
     [] e.e = "got" /\ e.ok -> [o EXCEPT !.got[e.o] = Append(@, e.v), !.gotAt[e.o] = Append(@, e.at), !.rp[e.o] = FALSE]
     [] e.e = "got" /\ ~e.ok -> [o EXCEPT !.seen[e.o] = TRUE, !.rp[e.o] = FALSE]
     [] e.e = "call" -> [o EXCEPT !.calls = Append(@, [a |-> e.a, x |-> e.x, at |-> e.at]), !.pending = @ + (IF Cfg.gate THEN 1 ELSE 0)]
